@@ -1621,6 +1621,14 @@ def _items(ctx: Ctx) -> list[tuple]:
 
 
 def run(ctx: Ctx) -> None:
+    from vf.props import c16_keys
+
+    only = getattr(ctx, "only", None)
+    if not only or "key-lookups" in only:
+        c16_keys.run_part(ctx)
+        if only:
+            ctx.rule = "key-lookup part only (see vf/props/c16_keys.py)"
+            return
     items = _items(ctx)
     # longest units first (deterministic), rotated by the seed: the explored set never depends on it
     rot = ctx.seed % max(1, len(items))
@@ -1633,7 +1641,10 @@ def run(ctx: Ctx) -> None:
                 "exception class and the full read-out (every public query of the component over the small universes) are compared; "
                 "states merged on the pair of concrete dumps; depth from the seeded histories: "
                 + ", ".join(f"{n}={c['depth'][tier]}" for n, c in CONFIGS.items() if not n.startswith("probe/"))
-                + "; probe/* configurations: one search per implementation against the model around each suspected divergence")
+                + "; probe/* configurations: one search per implementation against the model around each suspected divergence"
+                + "; key-lookup part (c16_keys): look-ups with 1-2 key pairs over four overlapping calls of a two-argument task as "
+                "operations of the history (a look-up must not change what a later look-up returns), all sequences to depth "
+                + ("5" if ctx.thorough else "4"))
     for a in ASSUMPTIONS:
         ctx.assume(a)
 
@@ -1667,6 +1678,10 @@ ASSUMPTIONS = [
 
 def replay(payload: dict) -> bool:
     r = payload["replay"]
+    if r.get("config") == "orch/key-lookups":
+        from vf.props import c16_keys
+
+        return c16_keys.replay_part(payload)
     cfg = CONFIGS[r["config"]]
     impl_cls, model_cls = KINDS[cfg["comp"]]
     impls = [impl_cls(b, cfg) for b in env.BACKENDS]
